@@ -28,14 +28,32 @@ impl DistanceMatrix<isize> {
         r.decrease() is Some,
         r.remaining().len() <= self.order,
         r.will_return_none() ==> r.remaining().len() == self.order,
-        forall|u: int| 0 <= u < r.remaining().len() ==> *(#[trigger] r.remaining()[u]) == self.row_max(u),
+        forall|u: int| #![trigger r.remaining()[u]] #![trigger self.row_max(u)] 0 <= u < r.remaining().len() ==> *r.remaining()[u] == self.row_max(u),
     @closure 1 |row: &[isize]| -> (m: &isize)
     ensures
         row@.len() == 0 ==> *m == self.infinity,
         row@.len() > 0 ==> seq_is_max(row@, *m),
     @fn_start
-        broadcast use vstd::laws_cmp::group_laws_cmp;
         broadcast use vstd::std_specs::iter::group_iter_axioms;
+        broadcast use lemma_last_max;
+        proof {
+            lemma_chunk_count(self.order as int);
+            assert forall|u: int, m: isize| 0 <= u < self.order && #[trigger] seq_is_max(chunk_of(self.dist@, self.order as int, u), m)
+                implies m == self.row_max(u) by { self.lemma_row_max(u, m); }
+            assert forall|u: int| 0 <= u < self.order implies (#[trigger] chunk_of(self.dist@, self.order as int, u)).len() == self.order by {
+                self.lemma_row_max_upto(u, self.order as int);
+            }
+        }
+    @*/
+
+    /*@fn impl=DistanceMatrix name=is_connected subst=W=>isize wrap=all
+    requires
+        self.wf(),
+    ensures
+        r == (forall|u: int| 0 <= u < self.order ==> #[trigger] self.row_max(u) != self.infinity),
+    @closure 1 |e: &isize| -> (b: bool)
+    ensures
+        b == (*e != self.infinity),
     @*/
 }
 
@@ -43,4 +61,68 @@ impl DistanceMatrix<isize> {
 spec fn seq_is_max(s: Seq<isize>, m: isize) -> bool {
     &&& forall|j: int| 0 <= j < s.len() ==> #[trigger] s[j] <= m
     &&& exists|j: int| 0 <= j < s.len() && #[trigger] s[j] == m
+}
+
+/// what `Iterator::max` returns over the items of a slice is the maximum of the slice
+broadcast proof fn lemma_last_max(s: Seq<isize>, o: Option<&isize>)
+    requires #[trigger] is_last_max(s.as_ref(), o),
+    ensures s.len() == 0 ==> o is None, s.len() > 0 ==> o is Some && seq_is_max(s, *o->0),
+{
+    let rem = s.as_ref();
+    assert(rem.len() == s.len());
+    if s.len() > 0 {
+        let i = choose|i: int| #[trigger] is_last_max_at(rem, i) && o->0 == rem[i];
+        assert(s[i] == *o->0);
+        assert forall|j: int| 0 <= j < s.len() implies #[trigger] s[j] <= *o->0 by {
+            assert(!(<isize as vstd::std_specs::cmp::OrdSpec>::cmp_spec(rem[j], rem[i]) is Greater));
+        }
+    }
+}
+
+/// an n x n matrix has n rows
+proof fn lemma_chunk_count(n: int)
+    requires n > 0,
+    ensures chunk_count(n * n, n) == n,
+{
+    assert((n * n + n - 1) / n == n) by (nonlinear_arith) requires n > 0;
+}
+
+impl DistanceMatrix<isize> {
+    /// row u is the u-th chunk; row_max_upto is an upper bound of the first k entries and is attained
+    proof fn lemma_row_max_upto(&self, u: int, k: int)
+        requires self.wf(), 0 <= u < self.order, 1 <= k <= self.order,
+        ensures
+            chunk_of(self.dist@, self.order as int, u).len() == self.order,
+            forall|v: int| 0 <= v < self.order ==> #[trigger] chunk_of(self.dist@, self.order as int, u)[v] == self.at(u, v),
+            forall|v: int| 0 <= v < k ==> #[trigger] self.at(u, v) <= self.row_max_upto(u, k),
+            exists|v: int| 0 <= v < k && #[trigger] self.at(u, v) == self.row_max_upto(u, k),
+        decreases k,
+    {
+        let n = self.order as int;
+        assert((u + 1) * n <= n * n && 0 <= u * n && (u + 1) * n == u * n + n) by (nonlinear_arith) requires 0 <= u < n;
+        if k > 1 {
+            self.lemma_row_max_upto(u, k - 1);
+            let w = choose|v: int| 0 <= v < k - 1 && #[trigger] self.at(u, v) == self.row_max_upto(u, k - 1);
+            if self.at(u, k - 1) >= self.row_max_upto(u, k - 1) {
+                assert(self.at(u, k - 1) == self.row_max_upto(u, k));
+            } else {
+                assert(self.at(u, w) == self.row_max_upto(u, k));
+            }
+        } else {
+            assert(self.at(u, 0) == self.row_max_upto(u, k));
+        }
+    }
+
+    /// the maximum of row u is row_max(u)
+    proof fn lemma_row_max(&self, u: int, m: isize)
+        requires self.wf(), 0 <= u < self.order, seq_is_max(chunk_of(self.dist@, self.order as int, u), m),
+        ensures m == self.row_max(u),
+    {
+        self.lemma_row_max_upto(u, self.order as int);
+        let row = chunk_of(self.dist@, self.order as int, u);
+        let j = choose|j: int| 0 <= j < row.len() && #[trigger] row[j] == m;
+        let v = choose|v: int| 0 <= v < self.order && #[trigger] self.at(u, v) == self.row_max(u);
+        assert(row[j] == self.at(u, j));
+        assert(row[v] == self.at(u, v));
+    }
 }
